@@ -873,6 +873,19 @@ async fn ldap_classify(
             || ldap_answer(f, uni, false, true).as_ref() == Some(got))
     {
         sig = "c41/ldap-substring-parts-matched-independently".into();
+    } else if is_generic(&sig) && kinds.contains("substring") {
+        for ci in [true, false] {
+            if let Some(alt) = ldap_answer(f, uni, ci, true) {
+                let s2 = classify("c41", "ldap", &fake(got), &fake(&alt), &fl);
+                if !is_generic(&s2) {
+                    sig = format!(
+                        "c41/ldap-substring-parts-matched-independently+{}",
+                        s2.trim_start_matches("c41/")
+                    );
+                    break;
+                }
+            }
+        }
     }
     (sig, fl, exec)
 }
@@ -975,6 +988,21 @@ fn scim_classify(
             || scim_answer(s, plain, false, true).as_ref() == Some(got))
     {
         sig = "c41/scim-ordering-on-string-not-lexicographic".into();
+    } else if is_generic(&sig) && scim_has_string_ordering(s) {
+        // two causes at once: relative to the reading in which string "less than" never holds,
+        // is the remaining difference one of the index-planner classes?
+        for ci in [true, false] {
+            if let Some(alt) = scim_answer(s, plain, ci, true) {
+                let s2 = classify("c41", "scim", got, &alt, &fl);
+                if !is_generic(&s2) {
+                    sig = format!(
+                        "c41/scim-ordering-on-string-not-lexicographic+{}",
+                        s2.trim_start_matches("c41/")
+                    );
+                    break;
+                }
+            }
+        }
     }
     (sig, fl, exec)
 }
@@ -1339,9 +1367,9 @@ pub fn run(args: Args) {
     run.assume("LDAP oracle universe = what the gateway presents for (objectclass=*) with attributes * and + to the same (anonymous) identity; an ACP created by the harness grants it search/read on name, displayname, description, member, class, gidnumber, uuid, spn of every entry");
     run.assume("equality/substring on displayname, gecos, description: the case rule is not published by the gateway; cases where case-exact and case-ignore readings differ are not judged. cn/uid/name/objectclass/class are case-insensitive (RFC 4519); SCIM strings on name/class likewise (caseExact=false)");
     run.assume("not generated, hence not judged: LDAP extensible match, dn/entrydn/homedirectory virtual attributes, SCIM co/sw/ew/ordering on uuid/reference attributes, SCIM sub-attribute and complex filters");
-    let rounds: usize = args.tier.pick(1, 5);
-    let n_ldap: usize = args.tier.pick(500, 1600);
-    let n_scim: usize = args.tier.pick(600, 2000);
+    let rounds: usize = args.tier.pick(1, 12);
+    let n_ldap: usize = args.tier.pick(1200, 3000);
+    let n_scim: usize = args.tier.pick(1200, 3000);
     let seed = args.seed;
     run.parallel(args.workers, |w, _n| {
         let mut acc = Acc::new();
@@ -1369,7 +1397,7 @@ pub fn run(args: Args) {
         need("ldap.answered", 2000),
         need("ldap.rejected", 50),
         need("ldap.agree.nonempty", 500),
-        need("ldap.agree.with-not.nonempty", 100),
+        need("ldap.agree.with-not.nonempty", 30),
         need("ldap.agree.substring.nonempty", 100),
         need("scim.answered", 2000),
         need("scim.rejected", 100),
